@@ -149,6 +149,11 @@ Definition wire_or_lone_esc (s : kseq) : bool :=
 Definition chords_have_wire : bool :=
   forallb (fun c => forallb wire_or_lone_esc (legacy_encs c) && forallb wire_or_lone_esc (kitty_encs c)) both_expressible.
 
+(* ... and so has every encoding (legacy, kitty, xterm modifyOtherKeys incl. the BS-coded Backspace) of
+   every chord whose description is specified ([desc_chords], model/Keys.v) *)
+Definition desc_have_wire : bool :=
+  forallb (fun c => forallb wire_or_lone_esc (all_encs c)) desc_chords.
+
 (* ================= correspondence stream ================= *)
 (* One report as the harness sent it: its bytes; whether a silence (longer than the escape timer)
    follows it; the sequence it is the canonical wire form of, if it was built from one; the encoding,
